@@ -1,6 +1,6 @@
 """C37 The task registry stays consistent -- contracts on the real TaskRegistry methods."""
-from pyvc.smt import *
-from pyvc.core import Module
+from pvc.smt import *
+from pvc.core import Module
 
 PROPERTY = "C37"
 F = "redun/task.py"
@@ -130,8 +130,8 @@ ASSUMPTIONS = ["A-HIST: hist(tasks, hash) is the histogram of task hashes over t
                "task.hash of a registered task is not reassigned while registered (frame scan on .hash writes)"]
 
 
-from pyvc import frame_scan, bounded
-from pyvc.result import Result
+from pvc import frame_scan, bounded
+from pvc.result import Result
 
 
 def extra(tier, seed):
